@@ -1,2 +1,3 @@
 import Driver.Parse
 import Driver.Smt
+import Driver.Fk
